@@ -1271,21 +1271,25 @@ fn sub_nary(env: &Rc<MEnv>, c: &Comb, v: &[Node], down: Obs, d: Disp) {
     Comb::Amb => {
       let winner: Rc<Cell<Option<usize>>> = Rc::new(Cell::new(None));
       let subs: Rc<RefCell<Vec<Option<Disp>>>> = Rc::new(RefCell::new(vec![None; n]));
-      // every input is subscribed, in order; the first to signal anything wins and the
-      // others are disposed
+      // every input is subscribed, in order; the first to signal anything wins. A loser is
+      // disposed when it first signals (at the latest), as C06 words it; whether inputs that
+      // cannot win any more are subscribed at all is not fixed by any property - they are,
+      // as in the crate
       for (i, x) in v.iter().enumerate() {
         let decide = {
           let (w, s) = (winner.clone(), subs.clone());
           Rc::new(move || -> bool {
             match w.get() {
-              Some(k) => k == i,
+              Some(k) if k == i => true,
+              Some(_) => {
+                let me = s.borrow()[i].clone();
+                if let Some(me) = me {
+                  me.dispose(Cause::AmbLoser);
+                }
+                false
+              }
               None => {
                 w.set(Some(i));
-                let others: Vec<Disp> =
-                  s.borrow().iter().enumerate().filter(|(j, _)| *j != i).filter_map(|(_, x)| x.clone()).collect();
-                for o in others {
-                  o.dispose(Cause::AmbLoser);
-                }
                 true
               }
             }
@@ -1315,12 +1319,6 @@ fn sub_nary(env: &Rc<MEnv>, c: &Comb, v: &[Node], down: Obs, d: Disp) {
         );
         let id = Disp::new();
         id.add_obs(&o);
-        if let Some(k) = winner.get() {
-          if k != i {
-            // a winner exists already: this input starts as a loser
-            id.dispose(Cause::AmbLoser);
-          }
-        }
         subs.borrow_mut()[i] = Some(id.clone());
         d.add_disp(&id);
         let ud = Disp::new();
@@ -1471,7 +1469,88 @@ pub struct MResult {
   pub subj_timeline: Vec<Vec<usize>>,
 }
 
+/// reference state of publish() / ref_count() / replay() (C13, appendix B)
+struct MConn {
+  kind: ConnKind,
+  subs: RefCell<Vec<Obs>>,
+  history: RefCell<Vec<P>>,
+  stored: RefCell<Option<Rk>>,
+  connection: RefCell<Option<Disp>>,
+}
+
+impl MConn {
+  fn count(&self) -> usize {
+    self.subs.borrow().iter().filter(|o| o.alive()).count()
+  }
+  fn push(&self, ev: Rk) {
+    match ev {
+      Rk::N(p) => {
+        if self.kind == ConnKind::Replay {
+          self.history.borrow_mut().push(p.clone());
+        }
+        let snap: Vec<Obs> = self.subs.borrow().iter().filter(|o| o.alive()).cloned().collect();
+        for o in snap {
+          o.next(&p);
+        }
+      }
+      Rk::E(c) => {
+        if self.kind == ConnKind::Replay && self.stored.borrow().is_none() {
+          *self.stored.borrow_mut() = Some(Rk::E(c));
+        }
+        let snap: Vec<Obs> = std::mem::take(&mut *self.subs.borrow_mut());
+        for o in snap {
+          o.error(c);
+        }
+      }
+      Rk::C => {
+        if self.kind == ConnKind::Replay && self.stored.borrow().is_none() {
+          *self.stored.borrow_mut() = Some(Rk::C);
+        }
+        let snap: Vec<Obs> = std::mem::take(&mut *self.subs.borrow_mut());
+        for o in snap {
+          o.complete();
+        }
+      }
+    }
+  }
+}
+
+fn conn_connect(sh: &Rc<MShared>) {
+  let conn = sh.conn.as_ref().unwrap().clone();
+  if conn.connection.borrow().is_some() {
+    return;
+  }
+  let d = Disp::new();
+  *conn.connection.borrow_mut() = Some(d.clone());
+  let (c1, c2, c3) = (conn.clone(), conn.clone(), conn.clone());
+  let o = Obs::new(move |p| c1.push(Rk::N(p.clone())), move |c| c2.push(Rk::E(c)), move || c3.push(Rk::C));
+  d.add_obs(&o);
+  let root = sh.root.clone();
+  subscribe(&sh.env, &root, o, d);
+}
+
+fn conn_disconnect(sh: &Rc<MShared>) {
+  let conn = sh.conn.as_ref().unwrap();
+  let d = conn.connection.borrow_mut().take();
+  if let Some(d) = d {
+    d.dispose(Cause::Unsub);
+  }
+}
+
+/// after any change of the subscriber set of ref_count / replay
+fn conn_recount(sh: &Rc<MShared>) {
+  let conn = sh.conn.as_ref().unwrap();
+  if conn.kind == ConnKind::Publish {
+    return;
+  }
+  conn.subs.borrow_mut().retain(|o| o.alive());
+  if conn.count() == 0 {
+    conn_disconnect(sh);
+  }
+}
+
 struct MShared {
+  conn: Option<Rc<MConn>>,
   env: Rc<MEnv>,
   root: Node,
   traces: RefCell<Vec<Vec<Rk>>>,
@@ -1523,6 +1602,32 @@ fn m_subscribe(sh: &Rc<MShared>, k: usize) {
   );
   let d = Disp::new();
   d.add_obs(&o);
+  if let Some(conn) = sh.conn.clone() {
+    // subscribe to the connectable's observable()
+    {
+      let sh2 = sh.clone();
+      d.add(move |_| conn_recount(&sh2));
+    }
+    conn.subs.borrow_mut().push(o.clone());
+    if conn.kind == ConnKind::Replay {
+      let hist: Vec<P> = conn.history.borrow().clone();
+      for p in hist {
+        o.next(&p);
+      }
+      match conn.stored.borrow().clone() {
+        Some(Rk::E(c)) => o.error(c),
+        Some(Rk::C) => o.complete(),
+        _ => {}
+      }
+    }
+    if conn.kind != ConnKind::Publish && conn.count() == 1 {
+      conn_connect(sh);
+    }
+    // observers that were ended by a terminal during the (synchronous) connect
+    conn_recount(sh);
+    sh.subs.borrow_mut()[k] = Some(d);
+    return;
+  }
   let root = sh.root.clone();
   // the handle is available to reactions only after subscribe() returned (as in Rx)
   subscribe(&sh.env, &root, o, d.clone());
@@ -1562,6 +1667,15 @@ pub fn run_model_opt(case: &Case, conv: Conv, sentinel: bool) -> Result<MResult,
   });
   let nrec = case.recorders.len();
   let sh = Rc::new(MShared {
+    conn: case.conn.clone().map(|kind| {
+      Rc::new(MConn {
+        kind,
+        subs: RefCell::new(Vec::new()),
+        history: RefCell::new(Vec::new()),
+        stored: RefCell::new(None),
+        connection: RefCell::new(None),
+      })
+    }),
     env: env.clone(),
     root: case.root.clone(),
     traces: RefCell::new(vec![Vec::new(); nrec]),
@@ -1585,6 +1699,20 @@ pub fn run_model_opt(case: &Case, conv: Conv, sentinel: bool) -> Result<MResult,
         }
       }
       Action::Advance(_) => {}
+      Action::Connect => {
+        if sh.conn.is_some() {
+          conn_connect(&sh);
+        }
+      }
+      Action::Disconnect => {
+        if sh.conn.is_some() {
+          conn_disconnect(&sh);
+        }
+      }
+    }
+    if sh.conn.is_some() {
+      // a terminal of the source empties the subscriber set
+      conn_recount(&sh);
     }
     if env.failed() {
       break;
@@ -1633,6 +1761,13 @@ pub fn run_model_opt(case: &Case, conv: Conv, sentinel: bool) -> Result<MResult,
   }
   for h in &env.hots {
     h.subs.borrow_mut().clear();
+  }
+  if let Some(conn) = &sh.conn {
+    conn.subs.borrow_mut().clear();
+    let d = conn.connection.borrow_mut().take();
+    if let Some(d) = d {
+      d.dispose(Cause::Unsub);
+    }
   }
   env.probes.borrow_mut().clear();
   let traces = sh.traces.borrow().clone();
